@@ -66,7 +66,7 @@ def breadth_inputs(quick, r):
     suite, manual = C06.suite_inputs()
     pool = [t for t in suite + manual + list(C06.FORMS) if not RANDOM_OR_CLOCK.search(t) and "\n" not in t and len(t) <= 100]
     pool = sorted(set(pool))
-    pick = r.sample(pool, min(len(pool), 260 if quick else 2500))
+    pick = r.sample(pool, min(len(pool), 260 if quick else 900))
     texts = list(dict.fromkeys([x for x in FUNC_EQ if not RANDOM_OR_CLOCK.search(x)] + pick))
     return [(f"breadth[{t}]", t) for t in texts]
 
@@ -164,7 +164,7 @@ def run(ctx):
             if p is None: continue
             n = p["polls"]
             if name in is_breadth:
-                ks = set(range(0, min(n, 150 if quick else 400))) | {n}
+                ks = set(range(0, min(n, 150 if quick else 250))) | {n}
                 if mode == "preview":
                     ks = set(list(sorted(ks))[:: 4])
                 for k in sorted(ks):
